@@ -113,7 +113,7 @@ def configs(tier):
         c.append((P(lc, ls, "R3", MENU_CORE, gran="api"), 2))              # a scheduling point before every relay XCM call
     for script, d, dev in (("R1s", 2, "all"), ("R2s", 2, "all"), ("R3", 2, "all"), ("R5", 2, "all"), ("M1", 2, "all"),
                            ("R1", 1, "all"), ("R2", 1, "all"), ("R4s", 2, "relay"), ("R6s", 2, "relay"), ("M2", 1, "all"),
-                           ("R1s", 3, "relay"), ("R2s", 3, "relay")):
+                           ("R1s", 3, "relay")):
         c.append((P("tcp", "tls", script, MENU_CORE, dev=dev), d))
     for script, d, dev in (("R1s", 2, "all"), ("R2s", 2, "all"), ("R3", 2, "relay"), ("R5", 2, "relay"), ("M1", 2, "relay"),
                            ("R1", 1, "all"), ("R2", 1, "all"), ("R4s", 2, "relay"), ("R6s", 1, "all"), ("M2", 1, "all"),
@@ -125,10 +125,9 @@ def configs(tier):
     c.append((P("btcp", "btcp", "B3", MENU_CORE, dev="relay"), 3))
     c.append((P("btcp", "btcp", "M1"), 2))
     for script, d, dev in (("B1", 2, "all"), ("B2", 2, "all"), ("B3", 2, "all"), ("B4", 2, "all"), ("M1", 2, "relay"),
-                           ("B1", 3, "relay"), ("B2", 3, "relay")):
+                           ("B2", 3, "relay")):
         c.append((P("btcp", "btls", script, MENU_CORE, dev=dev), d))
-    for script, d, dev in (("B1", 2, "all"), ("B2", 2, "all"), ("B3", 2, "relay"), ("B4", 2, "relay"), ("M1", 1, "all"),
-                           ("B1", 3, "relay")):
+    for script, d, dev in (("B1", 2, "all"), ("B2", 2, "all"), ("B3", 2, "relay"), ("B4", 2, "relay"), ("M1", 1, "all")):
         c.append((P("btls", "btcp", script, MENU_CORE, dev=dev), d))
     # sanitizer build
     for lc, ls, script in (("tcp", "tcp", "R1"), ("ux", "tcp", "R3"), ("tcp", "tls", "R1s"), ("tls", "tcp", "R2s"),
